@@ -243,15 +243,14 @@ def correspondence(ctx) -> C.Part:
     """Model.misoResidual (driver, Float) evaluated on the spectra the real library computes (same kwargs) and on a numpy solution of the
     normal equations, vs the ASD returned by the real MISO/SISO functions: | |sqrt(model)| - asd | <= 1e-8*sqrt(S00) per bin."""
     P = C.Part()
-    n = ctx.scale(14, 90)
+    n = ctx.scale(32, 240)
+    cap_s = ctx.scale(70, 330)
     worst = 0.0
     for i in range(n):
-        if ctx.time_left() < 90:
-            P.notes.append("time budget reached")
+        if ctx.time_left() < 90 or ctx.budget_s - ctx.time_left() > cap_s:
+            P.notes.append(f"time budget reached after {i} cases")
             break
-        q = [1, 2, 3, 2, 3, 1, 2][i % 7]
-        if ctx.thorough and i % 9 == 8:
-            q = 4
+        q = [1, 2, 3, 2, 3, 1, 2, 4][i % 8]
         c = build_case(int(ctx.rng.integers(0, 2 ** 62)), q, ctx.thorough)
         if i == 0:
             c = d2_witness()
@@ -263,9 +262,6 @@ def correspondence(ctx) -> C.Part:
             P.notes.append(f"compute_spectrum raised {ex!r} for {c['kw']}"[:200])
             continue
         solvers = ["numeric", "analytic"] + (["siso"] if q == 1 else [])
-        if q == 4 and c["kw"].get("Jdes", 500) > 12:
-            c["kw"]["Jdes"] = 12
-            ing = Ingredients(c["xs"], c["y"], c["fs"], c["kw"])
         compared = 0
         for sv in solvers:
             try:
@@ -601,8 +597,9 @@ def edge_stream(ck: Checker, rng) -> None:
 def oracle(ctx, intensive: bool = False, hints: List[Dict[str, Any]] = ()) -> C.Part:
     """the property's sub-claims on the real implementation only"""
     P = C.Part()
-    ck = Checker(P, with_analytic_q4=ctx.thorough)
-    n = ctx.scale(16, 110) * (4 if intensive else 1)
+    ck = Checker(P, with_analytic_q4=True)
+    n = ctx.scale(48, 420) * (4 if intensive else 1)
+    cap_s = ctx.scale(75, 540) * (2.2 if intensive else 1)
     validation_smoke(P)
     # corpus first: D2 witness (coupling with a delay)
     ck.check_case(d2_witness())
@@ -613,15 +610,13 @@ def oracle(ctx, intensive: bool = False, hints: List[Dict[str, Any]] = ()) -> C.
         P.notes.append(f"edge stream aborted: {ex!r}"[:200])
     qs = [1, 2, 3, 2, 1, 3, 2, 4]
     for i in range(n):
-        if ctx.time_left() < 25:
+        if ctx.time_left() < 25 or ctx.budget_s - ctx.time_left() > cap_s:
             P.notes.append(f"time budget reached after {i} generated cases")
             break
         q = qs[i % len(qs)]
         fam = FAMILIES[i % len(FAMILIES)]
         cpl = COUPLINGS[(i // 2) % len(COUPLINGS)]
         c = build_case(int(ctx.rng.integers(0, 2 ** 62)), q, ctx.thorough, fam, cpl)
-        if q == 4 and ctx.thorough:
-            c["kw"]["Jdes"] = min(c["kw"]["Jdes"], 12)
         ck.check_case(c)
         if i < 4:
             P.sample({"op": "oracle", **case_desc(c)})
